@@ -22,6 +22,8 @@ Space.
          first-k, last-k, every contiguous window (cyclic), evens, odds, stride patterns, and
          "primary blocks with exactly one replaced by each secondary" (all k x (N-k) of them),
          each sorted and reversed.
+  sweep: EVERY (k, N) with k <= N <= 256 above the small range x three subsets: the last k blocks, the first k-1 primaries with the last
+         secondary, a strided selection from the end.
 Oracle: b"".join(decode(blocks, ids))[:size] == data; a Failure or an unfired Deferred is a
 violation as well.
 """
@@ -134,6 +136,22 @@ def family_large(k, N, fam, part, nparts):
                 seen.add(key)
                 for s in both(sorted(c)):
                     yield s
+    elif fam == "sweep":
+        # three subsets per (k,N), for EVERY k <= N <= 256: the last k blocks, the first k-1 primaries with
+        # the last secondary, and every block number congruent to N-1 modulo ceil(N/k) topped up from the end
+        seen = set()
+        cands = [list(range(N - k, N))]
+        if k < N:
+            cands.append(list(range(k - 1)) + [N - 1])
+            step = -(-N // k)
+            c = list(range(N - 1, -1, -step))[:k]
+            c += [i for i in range(N - 1, -1, -1) if i not in c][:k - len(c)]
+            cands.append(sorted(c))
+        for c in cands:
+            key = tuple(c)
+            if len(set(c)) == k and key not in seen:
+                seen.add(key)
+                yield list(c)
     else:  # replace: primaries with exactly one replaced by each secondary
         idx = 0
         for i in range(k):
@@ -278,6 +296,11 @@ def jobs_for(tier, seed):
                 for style, size in styles:
                     for part in range(nparts):
                         jobs.append({"mode": "large", "family": "replace", "part": part, "nparts": nparts, "k": k, "N": N, "size": size, "style": style, "content": "rand", "seed": seed})
+    # sweep: EVERY (k, N) with k <= N <= 256 (the statement's whole range) with three subsets each
+    ks = lambda N: range(1, N + 1)
+    for N in range(nmax + 1, 257):
+        for k in ks(N):
+            jobs.append({"mode": "large", "family": "sweep", "k": k, "N": N, "size": k, "style": "plain", "content": "rand", "seed": seed})
     return jobs, nmax, allperm
 
 
@@ -297,6 +320,7 @@ def run(tier, seed):
         "rule": ("every (k,N) with 1<=k<=N<=%d x sizes {k,2k,5k,257k} + tails {1,k+1,5k-1} in immutable ('enc') and mutable ('pub') padding style x 2 contents x every k-subset "
                  "(all orders for k<=%d, else sorted/reversed/rotated) + blocks from encode(desired_share_ids=subset); N in %s with k in %s: first-k, last-k, every cyclic window, "
                  "evens, odds, strides 3/5/7, primaries with exactly one replaced by each secondary (sorted and in-place); each distinct (config, ordered id list) is evaluated once; "
+                 "plus a sweep over every (k,N), k<=N<=256 with three subsets each; "
                  "non-trivial = the id list contains at least one secondary block (id >= k), i.e. decoding needs a matrix inversion")
                 % (nmax, allperm, sorted(LARGE_K), {str(n): LARGE_K[n] for n in sorted(LARGE_K)}),
     }
